@@ -11,7 +11,7 @@ T = {
  "C01": ("model_checking", "every registered box type (+1 unknown) x body lengths x header form x decode path: decode -> encode -> decode -> encode with fully symbolic body bytes; byte-level losslessness outside the committed don't-care list for the reviewed types, fixed point for all types; plus whole files (9 skeleton kinds, each leaf box symbolic in turn)", "z3"),
  "C02": ("model_checking", "Size() == bytes written by Encode and EncodeSW, nested box sizes add up, any interleaving of Size/Info/Encode/EncodeSW leaves the bytes identical: every registered box type x body lengths, symbolic body; whole files", "z3"),
  "C03": ("model_checking", "the four decode paths (DecodeBox, DecodeBoxSR, DecodeFile, DecodeFileSR incl. lazy mdat) agree on error/no error, structure and re-encoded bytes for every registered box type x body lengths, symbolic body, and for whole files", "z3"),
- "C04": ("model_checking", "untrusted input: no panic, no allocation or step count beyond a budget linear in the input length while decoding + Info + encoding a box with exact or symbolic (lying) size fields, every registered type; panic/step/allocation monitors inside the symbolic executor, allocation counterexamples re-measured natively", "z3"),
+ "C04": ("model_checking", "untrusted input: no panic, no allocation or step count beyond a budget linear in the input length while decoding + Info + encoding a box with exact or symbolic (lying) size fields, every registered type; whole files with one symbolic leaf or one structural mutation (box dropped, duplicated, swapped, truncated, moved) under every decode mode; panic/step/allocation monitors inside the symbolic executor, allocation counterexamples re-measured natively", "z3"),
  "C05": ("model_checking", "fragment building API: full samples, metadata-only samples with separately written data (lazy variants) and sample intervals, single- and multi-track, several fragments per segment, with/without trun optimisation, both encoders, extra boxes between fragments: encoding and decoding together with the init returns per track and in order the same bytes, size, duration, flags, composition offset and decode time; symbolic metadata and payload, bounded sample counts", "z3"),
  "C06": ("model_checking", "encrypt (cenc for AVC / HEVC / AAC, cbcs for AAC, IV 8/16, NAL sizes around the thresholds, extra boxes in traf) then decrypt restores every sample byte and all metadata; AES-128 is an uninterpreted permutation with D(E(x))=x, so the result holds for every key; init and media decoded jointly and separately", "cvc5"),
  "C07": ("model_checking", "the encrypted form is well-formed: sub-sample entries partition each sample, NAL length/header and non-video NAL units stay clear, protected ranges are whole blocks, per-sample IVs advance by the blocks used, protected bytes equal a reference AES-CTR / CBC run (AES uninterpreted), saio/saiz describe senc; plus the clear/protected ranges for every NAL size 1..40 and around 96+16 / 65535", "cvc5"),
